@@ -397,6 +397,10 @@ func skipString(src string, pos int) (ret int, ep int) {
 			if ep == -1 {
 				ep = int(uintptr(sp) - uintptr((*rt.GoString)(unsafe.Pointer(&src)).Ptr))
 			}
+			// NOTICE: encoding/json.unquoteBytes, which decodes the literal afterwards, takes \' for an escape; JSON does not
+			if sp+1 < se && *(*byte)(unsafe.Pointer(sp + 1)) == '\'' {
+				return -int(types.ERR_INVALID_CHAR), -1
+			}
 			sp += 2
 			continue
 		}
